@@ -9,6 +9,7 @@ package httpserver
 import (
 	"encoding/json"
 	"fmt"
+	"hash/fnv"
 	"net"
 	"net/http"
 	"net/http/httptest"
@@ -313,16 +314,100 @@ func rhServe(x *rhMux, q vx.M) vx.M {
 	case "xri":
 		stdr.Header.Set("X-Real-Ip", ip)
 		stdr.RemoteAddr = decoy
+	case "xffchain":
+		// the client is the only public address the request names: X-Forwarded-For lists it among
+		// private / loopback / link-local proxy hops, the connection comes from a private proxy
+		chain := []string{}
+		for _, h := range rhHops(q) {
+			if h == "*" {
+				h = ip
+			}
+			chain = append(chain, h)
+		}
+		stdr.Header.Set("X-Forwarded-For", strings.Join(chain, ", "))
+		stdr.RemoteAddr = rhPrivateProxy
+	case "xrichain":
+		// X-Forwarded-For names non-public hops only, X-Real-IP the client, the connection comes
+		// from a private proxy: again one public address in all
+		chain := []string{}
+		for _, h := range rhHops(q) {
+			if h != "*" {
+				chain = append(chain, h)
+			}
+		}
+		stdr.Header.Set("X-Forwarded-For", strings.Join(chain, ", "))
+		stdr.Header.Set("X-Real-Ip", ip)
+		stdr.RemoteAddr = rhPrivateProxy
 	default:
 		stdr.RemoteAddr = net.JoinHostPort(ip, "4000")
 	}
 	x.rec.called = 0
 	w := httptest.NewRecorder()
-	x.m.ServeHTTP(w, stdr)
+	if rhPanics(func() { x.m.ServeHTTP(w, stdr) }) && x.rec.called == 0 {
+		// the handler goroutine of net/http would abort the connection: the client gets no status at
+		// all. Recorded as an outcome (no contract outcome has this code), not as a harness failure.
+		return vx.M{"code": rhPanicCode, "be": "", "path": []interface{}{}}
+	}
 	if x.rec.called > 0 {
 		return vx.M{"code": 0, "be": x.rec.name, "path": rhChars(x.rec.path)}
 	}
 	return vx.M{"code": w.Code, "be": "", "path": []interface{}{}}
+}
+
+const rhPanicCode = 599
+
+func rhPanics(f func()) (p bool) {
+	defer func() {
+		if recover() != nil {
+			p = true
+		}
+	}()
+	f()
+	return false
+}
+
+const rhPrivateProxy = "10.0.0.7:4000"
+
+// rhHopPool: addresses of proxy hops that are not public under any reading: RFC 1918 private,
+// loopback, link-local (IPv4 and IPv6), IPv6 unique local.
+var rhHopPool = []string{"10.0.0.1", "169.254.169.254", "192.168.1.1", "fe80::1", "172.16.0.9", "127.0.0.1", "169.254.0.3",
+	"::1", "fe80::a:b", "fc00::1", "10.255.255.254", "fd12:3456::5"}
+
+// rhHops: the X-Forwarded-For chain of a request sent "via" a chain: q["hops"] when the generator
+// chose one, otherwise derived from the request itself (so that a request is always sent the same
+// way): one to three hops from rhHopPool, "*" marking the client's place among them.
+func rhHops(q vx.M) []string {
+	if hs := vx.List(q["hops"]); len(hs) > 0 {
+		out := []string{}
+		for _, h := range hs {
+			out = append(out, vx.Str(h))
+		}
+		return out
+	}
+	h := fnv.New32a()
+	h.Write([]byte(rhAddrString(q["ip"]) + "|" + vx.Chars(q["host"]) + "|" + vx.Chars(q["m"]) + "|" + vx.Chars(q["path"]) + "|" + rhHdrString(q)))
+	x := int(h.Sum32() >> 3)
+	pick := func() string {
+		s := rhHopPool[x%len(rhHopPool)]
+		x /= len(rhHopPool)
+		return s
+	}
+	var out []string
+	switch x % 4 {
+	case 0:
+		x /= 4
+		out = []string{pick(), "*"}
+	case 1:
+		x /= 4
+		out = []string{"*", pick()}
+	case 2:
+		x /= 4
+		out = []string{pick(), pick(), "*"}
+	default:
+		x /= 4
+		out = []string{pick(), "*", pick()}
+	}
+	return out
 }
 
 func rhSame(a, b vx.M) bool {
@@ -364,7 +449,7 @@ func rhHdrString(q vx.M) string {
 // ---- diagnosis of cache divergences --------------------------------------------------------------
 
 func rhKey(q vx.M) string {
-	b, _ := json.Marshal(vx.M{"h": q["host"], "m": q["m"], "p": q["path"], "hdr": rhHdrString(q), "ip": rhAddrString(q["ip"]), "via": q["via"]})
+	b, _ := json.Marshal(vx.M{"h": q["host"], "m": q["m"], "p": q["path"], "hdr": rhHdrString(q), "ip": rhAddrString(q["ip"]), "via": q["via"], "hops": q["hops"]})
 	return string(b)
 }
 
